@@ -407,11 +407,13 @@ func filterAlias(v ssa.Value) (string, bool) {
 	return "", false
 }
 
-// ruleTubeEnd: the ticker fires at query positions q = i*TubeOffset +
-// MaxError - 1 (checked by gridperiod); the tube that has just been left is
-// the one whose diagonal index equals q, i.e. diagIndex(Tlen-1, q-1) == q.
-// Any other argument retires a neighbouring tube for some TubeOffset,
-// MaxError (one tick early when they are equal).
+// ruleTubeEnd: the ticker fires at query positions q = j*TubeOffset +
+// MaxError - 1 (checked by gridperiod), exactly when tube j-1 — diagonals
+// (j-1)*TubeOffset .. j*TubeOffset+MaxError-1 — can receive no more hits. Its
+// top MaxError diagonals are shared with tube j, to which tubeIndex assigns
+// them, so the diagonal used to find the finished tube must be q - MaxError
+// (= j*TubeOffset - 1). Any other value retires a tube that is still active
+// for some TubeOffset, MaxError.
 func ruleTubeEnd(c *Ctx, rule string) {
 	fn := c.fn("align/pals/filter", "(*Filter).tubeEnd")
 	diag := c.fn("align/pals/filter", "(*Filter).diagIndex")
@@ -430,11 +432,11 @@ func ruleTubeEnd(c *Ctx, rule string) {
 			call := tcall
 			n++
 			got := linOf(tcall.Call.Args[1], env)
-			want := linAtom(fn.Params[1].Name())
+			want := linAtom(fn.Params[1].Name()).add(linAtom("maxError"), -1)
 			if got.equal(want) {
-				c.ok(rule, key, call.Pos(), "the diagonal whose tube is retired simplifies to the tick position "+want.String()+" (diagIndex(Tlen-1, q-1) with diagIndex(t, q) = Tlen - t + q)")
+				c.ok(rule, key, call.Pos(), "the diagonal whose tube is retired simplifies to "+want.String()+": ticks fire at q = j*TubeOffset + MaxError - 1, when tube j-1 (diagonals up to q) has ended, and q - MaxError = j*TubeOffset - 1 is the last diagonal tubeIndex assigns to tube j-1")
 			} else {
-				c.bad(rule, key, call.Pos(), "the diagonal whose tube is retired is "+got.String()+", not the tick position "+want.String()+": ticks fire at q = i*TubeOffset + MaxError - 1, so a shifted diagonal falls into the neighbouring tube for some parameters (the next tube is emitted-or-discarded one period early when TubeOffset == MaxError) and matches are cut up")
+				c.bad(rule, key, call.Pos(), "the diagonal whose tube is retired is "+got.String()+", not "+want.String()+": ticks fire at q = j*TubeOffset + MaxError - 1, when tube j-1 has ended; only q - MaxError maps to tube j-1 for every TubeOffset and MaxError, any other diagonal emits-or-discards and resets a tube that is still active for some parameters, cutting matches into parts below the threshold")
 			}
 		}
 	}
@@ -826,5 +828,191 @@ func ruleExonOverlap(c *Ctx, rule string) {
 	}
 	if n == 0 {
 		c.und(rule, funcName(fn)+"/overlap-test", fn.Pos(), "no Start()/End() comparison leading to a rejection found")
+	}
+}
+
+// ---- flushrange / tubecap (C14): the end-of-query flush and the tube ring ----
+
+// ruleFlushRange: query positions are k-mer start positions, so the scan and
+// the recycling ticks stop at last = Qlen - k. The final tubeEnd and the
+// flush range must be computed from that position; the flush must start at
+// the lowest tube that can still be active, floor((last + 1 - MaxError) /
+// TubeOffset) — one lower and the retired tube's slot may be the slot of the
+// highest active tube — and reach at least the highest reachable diagonal
+// last + Tlen.
+func ruleFlushRange(c *Ctx, rule string) {
+	fn := c.fn("align/pals/filter", "(*Filter).Filter")
+	tubeEnd := c.fn("align/pals/filter", "(*Filter).tubeEnd")
+	tubeIdx := c.fn("align/pals/filter", "(*Filter).tubeIndex")
+	flush := c.fn("align/pals/filter", "(*Filter).tubeFlush")
+	c.Funcs[funcName(fn)] = true
+	query := fn.Params[1]
+	alias := func(v ssa.Value) (string, bool) {
+		if s, ok := filterAlias(v); ok {
+			return s, true
+		}
+		if call, ok := v.(*ssa.Call); ok {
+			if sf := call.Call.StaticCallee(); sf != nil && sf.Name() == "Len" && len(call.Call.Args) == 1 && call.Call.Args[0] == ssa.Value(query) {
+				return "Qlen", true
+			}
+		}
+		return "", false
+	}
+	env := &linEnv{forms: map[*ssa.Parameter]lin{}, names: map[*ssa.Parameter]string{}, alias: alias}
+	last := linAtom("Qlen").add(linAtom("k"), -1)
+	// (a) the final tubeEnd
+	n := 0
+	for _, b := range fn.Blocks {
+		for _, ins := range b.Instrs {
+			call, ok := ins.(*ssa.Call)
+			if !ok || call.Call.StaticCallee() != tubeEnd {
+				continue
+			}
+			n++
+			got := linOf(call.Call.Args[1], env)
+			key := funcName(fn) + "/final-tubeEnd"
+			if got.equal(last) {
+				c.ok(rule, key, call.Pos(), "the final tubeEnd is given the last scanned position "+last.String())
+			} else {
+				c.bad(rule, key, call.Pos(), "the final tubeEnd is given "+got.String()+" instead of the last scanned position "+last.String()+" (query positions are k-mer starts): the tube ending there is not the one retired")
+			}
+		}
+	}
+	if n == 0 {
+		c.und(rule, funcName(fn)+"/final-tubeEnd", fn.Pos(), "no tubeEnd call after the scan")
+	}
+	// (b) the flush loop: tubeFlush(i) for i from tubeIndex(diagFrom) (clamped at 0) to tubeIndex(diagTo)
+	var fl *ssa.Call
+	for _, b := range fn.Blocks {
+		for _, ins := range b.Instrs {
+			if call, ok := ins.(*ssa.Call); ok && call.Call.StaticCallee() == flush {
+				fl = call
+			}
+		}
+	}
+	key := funcName(fn) + "/flush-range"
+	if fl == nil {
+		c.und(rule, key, fn.Pos(), "no tubeFlush call")
+		return
+	}
+	phi, off, ok := linearIn(fl.Call.Args[1])
+	if !ok || off != 0 {
+		c.und(rule, key, fl.Pos(), "the flushed tube is not a plain loop counter")
+		return
+	}
+	var from, to *ssa.Call
+	var findIdx func(v ssa.Value, d int) *ssa.Call
+	findIdx = func(v ssa.Value, d int) *ssa.Call {
+		if d > 4 {
+			return nil
+		}
+		switch x := v.(type) {
+		case *ssa.Call:
+			if x.Call.StaticCallee() == tubeIdx {
+				return x
+			}
+		case *ssa.Phi:
+			for _, e := range x.Edges {
+				if r := findIdx(e, d+1); r != nil {
+					return r
+				}
+			}
+		}
+		return nil
+	}
+	for i, pred := range phi.Block().Preds {
+		if !pred.Dominates(phi.Block()) || i >= len(phi.Edges) {
+			continue
+		}
+		if r := findIdx(phi.Edges[i], 0); r != nil {
+			from = r
+		}
+	}
+	if ifi, ok := phi.Block().Instrs[len(phi.Block().Instrs)-1].(*ssa.If); ok {
+		if bo, ok := ifi.Cond.(*ssa.BinOp); ok && bo.Op == token.LEQ {
+			to = findIdx(bo.Y, 0)
+		}
+	}
+	if from == nil || to == nil {
+		c.und(rule, key, fl.Pos(), "the bounds of the flush loop are not tubeIndex(...) values with an inclusive upper bound")
+		return
+	}
+	gotFrom, gotTo := linOf(from.Call.Args[1], env), linOf(to.Call.Args[1], env)
+	wantFrom := last.add(linConst(1), 1).add(linAtom("maxError"), -1)
+	// starting up to MaxError diagonals higher is harmless: the tube that may then be skipped is
+	// the one the final tubeEnd has just retired, or (only when MaxError == TubeOffset) one whose
+	// every diagonal also belongs to a neighbour that is flushed or retired
+	if !gotFrom.equal(wantFrom) && !gotFrom.equal(wantFrom.add(linAtom("maxError"), 1)) {
+		c.bad(rule, key, from.Pos(), "the flush starts at the tube of diagonal "+gotFrom.String()+" instead of "+wantFrom.String()+" (or up to MaxError more; lowest diagonal still reachable at the last scanned position, minus the overlap): started higher, an active tube whose ticks never came is not flushed; started lower, a retired tube is flushed first whose slot in the circular list may be that of the highest active tube, whose run is then emitted on the wrong diagonal")
+		return
+	}
+	// upper end: at least Tlen + last, anything beyond is a no-op
+	d := gotTo.add(linAtom("Tlen").add(last, 1), -1)
+	okTo := d.k >= 0
+	for a, cf := range d.coef {
+		if cf < 0 || (a != "tubeOffset" && a != "maxError") {
+			okTo = false
+		}
+	}
+	if !okTo {
+		c.bad(rule, key, to.Pos(), "the flush ends at the tube of diagonal "+gotTo.String()+", which does not reach the highest diagonal reachable at the last scanned position, Tlen + "+last.String()+", for all parameters: runs in the highest tubes are never flushed")
+		return
+	}
+	c.ok(rule, key, fl.Pos(), "the flush runs from the tube of diagonal "+gotFrom.String()+" to the tube of diagonal "+gotTo.String()+": every tube that can still be active at the last scanned position, and none below")
+}
+
+// ruleTubeCap: the circular list must hold every tube that can be active at
+// one query position: floor((Tlen + TubeOffset + MaxError - 2) / TubeOffset) + 1.
+// The allocation floor(A/TubeOffset) + c is large enough for all parameters
+// exactly when A + c*TubeOffset - (Tlen + 2*TubeOffset + MaxError - 2) is a
+// non-negative constant.
+func ruleTubeCap(c *Ctx, rule string) {
+	pkg := modPath + "/align/pals/filter"
+	fn := c.fn("align/pals/filter", "(*Filter).Filter")
+	c.Funcs[funcName(fn)] = true
+	key := funcName(fn) + "/tube-ring-size"
+	env := &linEnv{forms: map[*ssa.Parameter]lin{}, names: map[*ssa.Parameter]string{}, alias: filterAlias}
+	var mk *ssa.MakeSlice
+	for _, b := range fn.Blocks {
+		for _, ins := range b.Instrs {
+			if st, ok := ins.(*ssa.Store); ok {
+				if name, ok := fieldOf(st.Addr, pkg, "Filter"); ok && name == "tubes" {
+					if m, ok := st.Val.(*ssa.MakeSlice); ok {
+						mk = m
+					}
+				}
+			}
+		}
+	}
+	if mk == nil {
+		c.und(rule, key, fn.Pos(), "f.tubes is not assigned a make() in Filter")
+		return
+	}
+	// size = floor(A / tubeOffset) + cst
+	size := mk.Len
+	cst := int64(0)
+	if bo, ok := size.(*ssa.BinOp); ok && bo.Op == token.ADD {
+		if k, ok := constIntVal(bo.Y); ok {
+			cst, size = k, bo.X
+		} else if k, ok := constIntVal(bo.X); ok {
+			cst, size = k, bo.Y
+		}
+	}
+	quo, ok := size.(*ssa.BinOp)
+	if !ok || quo.Op != token.QUO {
+		c.und(rule, key, mk.Pos(), "the ring size is not of the form A/TubeOffset + constant")
+		return
+	}
+	if s, ok := filterAlias(quo.Y); !ok || s != "tubeOffset" {
+		c.und(rule, key, mk.Pos(), "the ring size is not divided by TubeOffset")
+		return
+	}
+	B := linOf(quo.X, env).add(linAtom("tubeOffset").scale(cst), 1)
+	need := linAtom("Tlen").add(linAtom("tubeOffset").scale(2), 1).add(linAtom("maxError"), 1).add(linConst(-2), 1)
+	d := B.add(need, -1)
+	if d.isConst() && d.k >= 0 {
+		c.ok(rule, key, mk.Pos(), "the circular list has floor(("+linOf(quo.X, env).String()+")/TubeOffset) + "+fmt.Sprint(cst)+" slots, at least the floor((Tlen + TubeOffset + MaxError - 2)/TubeOffset) + 1 tubes that can be active at one query position")
+	} else {
+		c.bad(rule, key, mk.Pos(), "the circular list has floor(("+linOf(quo.X, env).String()+")/TubeOffset) + "+fmt.Sprint(cst)+" slots, which is less than the floor((Tlen + TubeOffset + MaxError - 2)/TubeOffset) + 1 tubes that can be active at one query position for some parameters (difference "+d.String()+" in units before division): the lowest and highest active tubes then share a slot and their counts and hits are mixed")
 	}
 }
